@@ -7,6 +7,7 @@ import (
 	"bytes"
 	"fmt"
 	"os"
+	"runtime"
 	"sync"
 	"testing"
 	"time"
@@ -336,6 +337,56 @@ type SlowCase struct {
 	N          int `json:"n"`
 	Size       int `json:"size"`
 	IntervalMs int `json:"interval_ms"`
+	// Others: while the collector is not reading (and the exporter's send is parked in the middle of a
+	// message), this many other exporters of the same program - other observation domains, another
+	// template - send ten 48 KB messages each to collectors of their own that read at once.
+	Others int `json:"others,omitempty"`
+}
+
+// runOther is one of SlowCase's other exporters; it returns a description of what was wrong with
+// its own stream, if anything.
+func runOther(i int) string {
+	peer, err := exph.NewPeer("tcp", false)
+	if err != nil {
+		return ""
+	}
+	defer peer.Close()
+	ep, err := exporter.InitExportingProcess(exporter.ExporterInput{CollectorAddress: peer.Addr, CollectorProtocol: "tcp", ObservationDomainID: uint32(100 + i), TempRefTimeout: 3600})
+	if err != nil {
+		return ""
+	}
+	defer ep.CloseConnToCollector()
+	f := []ref.Field{glue.UserField(ref.TString), glue.UserField(ref.TU64)}
+	h := ref.Header{Domain: uint32(100 + i)}
+	ts, _ := exph.TemplateSet(300, f, 0)
+	total := 0
+	n, err := ep.SendSet(ts)
+	if err != nil {
+		return ""
+	}
+	total += n
+	want := [][]byte{ref.TemplateMessage(h, ref.Template{ID: 300, Fields: f})}
+	for k := 0; k < 10; k++ {
+		r := [][]ref.Value{{{B: bytes.Repeat([]byte{0xbb}, 48000)}, {U: 0xbbbbbbbbbbbbbbbb}}}
+		ds, _ := exph.DataSet(300, f, r, 0)
+		n, err := ep.SendSet(ds)
+		if err != nil {
+			return ""
+		}
+		total += n
+		want = append(want, ref.DataMessage(h, ref.Template{ID: 300, Fields: f}, r))
+	}
+	peer.WaitStream(total, waitLimit)
+	msgs, rest := peer.Messages()
+	if len(rest) != 0 || len(msgs) != len(want) {
+		return fmt.Sprintf("exporter %d beside it: %d messages and %d stray bytes on the wire for %d successful sends", i, len(msgs), len(rest), len(want))
+	}
+	for k := range msgs {
+		if !exph.SameExceptTimeSeq(msgs[k], want[k]) {
+			return fmt.Sprintf("exporter %d beside it: message %d on the wire is not what was sent", i, k)
+		}
+	}
+	return ""
 }
 
 // runSlow: whatever happens to the individual sends, the byte stream the collector finally reads
@@ -367,6 +418,19 @@ func runSlow(c SlowCase) *ev.Failure {
 		want = append(want, ref.TemplateMessage(h, ref.Template{ID: 256, Fields: f}))
 		total += n
 	}
+	otherFail := make([]string, c.Others)
+	var ow sync.WaitGroup
+	for i := 0; i < c.Others; i++ {
+		ow.Add(1)
+		go func(i int) {
+			defer ow.Done()
+			// spread over the first half of the pause, from the moment the main exporter starts to send:
+			// some of them build their messages just after it was parked in the middle of one
+			time.Sleep(time.Duration(min(i*12, c.PauseMs/2)) * time.Millisecond)
+			otherFail[i] = runOther(i)
+		}(i)
+	}
+	defer ow.Wait()
 	failed := 0
 	var firstErr error
 	for k := 0; k < c.N; k++ {
@@ -403,7 +467,13 @@ func runSlow(c SlowCase) *ev.Failure {
 		}
 	}
 	if wi != len(want) {
-		return ev.Failf("collector paused %d ms (%d of %d sends reported an error; first: %v): %d sends succeeded but only %d of their messages are on the wire, in order, among %d framed messages", c.PauseMs, failed, c.N, firstErr, len(want), wi, len(msgs))
+		return ev.Failf("collector paused %d ms (%d of %d sends reported an error; first: %v; %d other exporters were sending meanwhile): %d sends succeeded but only %d of their messages are on the wire, in order, among %d framed messages", c.PauseMs, failed, c.N, firstErr, c.Others, len(want), wi, len(msgs))
+	}
+	ow.Wait()
+	for _, o := range otherFail {
+		if o != "" {
+			return ev.Failf("collector paused %d ms while its exporter was sending: %s", c.PauseMs, o)
+		}
 	}
 	return nil
 }
@@ -590,7 +660,8 @@ func TestC02(t *testing.T) {
 	}
 	// every run: a collector that is slow to read, so that sends block on a full socket while the
 	// connection check keeps running
-	slow := []SlowCase{{PauseMs: 400, N: 300, Size: 60000, IntervalMs: 10}, {PauseMs: 250, N: 400, Size: 30000, IntervalMs: 5}}
+	slow := []SlowCase{{PauseMs: 400, N: 300, Size: 60000, IntervalMs: 10}, {PauseMs: 250, N: 400, Size: 30000, IntervalMs: 5},
+		{PauseMs: 900, N: 300, Size: 60000, IntervalMs: 1000, Others: 2 * runtime.GOMAXPROCS(0)}, {PauseMs: 900, N: 300, Size: 48000, IntervalMs: 1000, Others: 2 * runtime.GOMAXPROCS(0)}}
 	if rec.Thorough() {
 		for k := 0; k < 10; k++ {
 			slow = append(slow, SlowCase{PauseMs: 100 + 60*k, N: 200 + 40*k, Size: 65000 - 6000*k, IntervalMs: 1 + 3*k})
